@@ -202,15 +202,16 @@ type candidate struct {
 }
 
 type site struct {
-	cand   *candidate
-	call   *ast.CallExpr
-	stmt   ast.Stmt // the statement that is replaced
-	kind   string   // "expr", "assign", "return", "if"
-	file   *ast.File
-	encl   *ast.FuncDecl
-	negate bool        // if-cond form `!h()`
-	bare   bool        // if-cond form without init
-	follow *ast.IfStmt // "if" kind where the call is an assignment statement and the if is the NEXT statement of the block
+	cand    *candidate
+	call    *ast.CallExpr
+	stmt    ast.Stmt // the statement that is replaced
+	kind    string   // "expr", "assign", "return", "if"
+	file    *ast.File
+	encl    *ast.FuncDecl
+	negate  bool              // if-cond form `!h()`
+	bare    bool              // if-cond form without init
+	imports map[string]string // imports the caller's file needs for the folded body: name -> path
+	follow  *ast.IfStmt       // "if" kind where the call is an assignment statement and the if is the NEXT statement of the block
 }
 
 // rangeEnd: the end of the source range the fold replaces.
@@ -301,6 +302,7 @@ func foldPackage(repo string, pk *packages.Package, inv map[string]bool, res *Re
 	// fold innermost first: candidates whose bodies call no other candidate
 	n := 0
 	edits := map[string][]edit{}
+	addedImports := map[string]bool{}
 	touched := map[*ast.FuncDecl]bool{}
 	for _, c := range cands {
 		if why, isBad := bad[c]; isBad {
@@ -367,6 +369,15 @@ func foldPackage(repo string, pk *packages.Package, inv map[string]bool, res *Re
 		for i, s := range sites[c] {
 			touched[s.encl] = true
 			edits[es[i].file] = append(edits[es[i].file], es[i].e)
+			for name, path := range s.imports {
+				k := es[i].file + "|" + name
+				if addedImports[k] {
+					continue
+				}
+				addedImports[k] = true
+				off := fset.PositionFor(s.file.Name.End(), false).Offset
+				edits[es[i].file] = append(edits[es[i].file], edit{off, off, fmt.Sprintf("; import %s %q", name, path)})
+			}
 		}
 		touched[c.fd] = true
 		// the declaration itself goes (replaced by as many empty lines): nothing calls it any more, and analysed on its
@@ -782,6 +793,14 @@ func render1(fset *token.FileSet, pk *packages.Package, s *site) (string, string
 		if pn, ok := obj.(*types.PkgName); ok {
 			_, found := callerScope.LookupParent(id.Name, s.stmt.Pos())
 			if fpn, ok := found.(*types.PkgName); !ok || fpn.Imported() != pn.Imported() {
+				if found == nil {
+					// the caller's file gets the import (on the line of its package clause, so that no line moves)
+					if s.imports == nil {
+						s.imports = map[string]string{}
+					}
+					s.imports[id.Name] = pn.Imported().Path()
+					return
+				}
 				why = "the caller's file does not import " + pn.Imported().Path() + " as " + id.Name
 			}
 			return
